@@ -28,6 +28,12 @@ def gen(rng, dims=None):
             off += len(c["points"])
     if rng.random() < 0.2:
         conf[rng.randrange(F)] = 0
+    if rng.random() < 0.35:                              # one axis whose smallest observed coordinate is already exactly 0 (the others are not)
+        d4 = data.reshape(F, P, N, dims); ax = rng.randrange(dims)
+        obs = conf != 0
+        if obs.any():
+            d4[..., ax] -= d4[..., ax][obs].min()
+        data = d4.reshape(-1)
     body = {"fps": {"f32": 0x41C80000}, "frames": F, "people": P, "points": N, "dims": dims, "data": pc.f32_to_bits(data), "conf": pc.f32_to_bits(conf)}
     return {"header": h, "body": body}
 
